@@ -240,8 +240,10 @@ Theorem C17_relay_at_most_one : forall s c1 c2 p1 p2 e, rt_reach ch1 sh4 ch2 sh3
   p_won p1 = Some e -> p_won p2 = Some e -> c1 = c2.
 Proof. exact (rt_at_most_one ch1 sh4 ch2 sh3). Qed.
 
+(* (a reset — resetToStandby from the transferring state, or at the end of a failed / unconfirmed handshake — is
+   exactly what starts a new era) *)
 Theorem C17_relay_adoption_stable : forall ls s s' c, rt_run ch1 sh4 ch2 sh3 s ls = Some s' ->
-  forallb (fun l => negb (rt_is_reset l)) ls = true -> r_trelay s = Some c -> r_trelay s' = Some c.
+  r_era s' = r_era s -> r_trelay s = Some c -> r_trelay s' = Some c.
 Proof. exact (rt_adoption_stable ch1 sh4 ch2 sh3). Qed.
 
 (* an unauthenticated client gets no byte: anything but the hello (or nothing yet, or a failed read) — nothing
@@ -278,31 +280,60 @@ Theorem C17_relay_unauth_server_next : forall s c p r dial fail, rt_reach ch1 sh
 Proof. exact (rt_unauth_server_next ch1 sh4 ch2 sh3). Qed.
 
 (* bytes cross a bridge only between the pair it belongs to: every chunk in a channel of pair c, and every
-   chunk one of its writers wrote, was read from pair c's own other connection by pair c's own pump, or was
-   sent by the relay itself; and only a pair that won the swap ever has a chunk, a pump or the relay
+   chunk one of its writers wrote, was read from pair c's own other connection by pair c's own pump (directly or
+   through the relay's handshake buffer), or was written by the relay itself, or was read in-band while
+   tunnelConnected was still false; and only a pair that won the swap ever has a chunk, a pump or the relay
    back-pointer *)
 Theorem C17_relay_bridge_bytes : forall s c p b d x, rt_reach ch1 sh4 ch2 sh3 s ->
   nth_error (r_pairs s) c = Some p -> p_br p = Some b ->
   In x (h_chan (rt_half_of d b)) \/ In x (h_log (rt_half_of d b)) ->
-  (fst x = rt_tag d c \/ fst x = RsRelay) /\ p_won p <> None.
+  (fst x = rt_tag d c \/ fst x = RsRelay \/ fst x = RsInband false) /\ p_won p <> None.
 Proof. exact (rt_bridge_bytes ch1 sh4 ch2 sh3). Qed.
+
+(* ONCE THE TUNNEL IS AGREED, IN-BAND BYTES ARE IGNORED BY IT — also by a relay, in every phase of its handshake
+   (before the ACT has been read, between ACT and CFG, while the buffers are flushed, while transferring, after the
+   reset): a chunk the relay read in-band — typed at the client's terminal or printed by the server — while
+   tunnelConnected was set is never in a handshake buffer, never in a channel of a bridge, never written to a tunnel
+   connection … *)
+Theorem C17_relay_inband_agreed_never_in_tunnel : forall s, rt_reach ch1 sh4 ch2 sh3 s ->
+  (forall d bs, ~ In (RsInband true, bs) (rt_buf d (r_x s))) /\
+  (forall c p b d bs, nth_error (r_pairs s) c = Some p -> p_br p = Some b ->
+     ~ In (RsInband true, bs) (h_chan (rt_half_of d b)) /\ ~ In (RsInband true, bs) (h_log (rt_half_of d b))).
+Proof. exact (rt_inband_agreed_never_in_tunnel ch1 sh4 ch2 sh3). Qed.
+
+(* … it is passed on in-band, unchanged, in that very step (or the pump waits while flushHandshakeBuffer holds the
+   lock); nothing else changes … *)
+Theorem C17_relay_inband_agreed_passes : forall s d bs s', rt_step ch1 sh4 ch2 sh3 s (RLInband d bs) = Some s' ->
+  r_tconnected s = true ->
+  s' = rt_with_x s (rt_add_out d (RsInband true, bs, true) (r_x s)).
+Proof. exact (rt_inband_agreed_passes ch1 sh4 ch2 sh3). Qed.
+
+(* … and nothing a pump read from a TUNNEL connection is ever written in-band while tunnelConnected is set (a
+   handshake that did not agree on the tunnel hands what was parked back in-band) *)
+Theorem C17_relay_tunnel_never_inband_once_agreed : forall s d src bs g, rt_reach ch1 sh4 ch2 sh3 s ->
+  In (src, bs, g) (rt_outs d (r_x s)) -> rt_is_tunnel_src src = true -> g = false.
+Proof. exact (rt_tunnel_never_inband_once_agreed ch1 sh4 ch2 sh3). Qed.
 
 Theorem C17_relay_pumps_only_adopted : forall s c p b d, rt_reach ch1 sh4 ch2 sh3 s ->
   nth_error (r_pairs s) c = Some p -> p_br p = Some b ->
   h_pump (rt_half_of d b) <> PmNone \/ b_relay b = true -> p_won p <> None.
 Proof. exact (rt_pumps_only_adopted ch1 sh4 ch2 sh3). Qed.
 
-Theorem C17_relay_parked_from_adopted : forall s x, rt_reach ch1 sh4 ch2 sh3 s -> In x (r_parked s) ->
-  exists c p, (fst x = RsCli c \/ fst x = RsSrv c) /\ nth_error (r_pairs s) c = Some p /\ p_won p <> None.
+(* what sits in a handshake buffer: in-band chunks that arrived before the agreement, and chunks a pump of the pair
+   that IS in tunnelRelay read from its own connection *)
+Theorem C17_relay_parked_from_adopted : forall s d x, rt_reach ch1 sh4 ch2 sh3 s -> In x (rt_buf d (r_x s)) ->
+  fst x = RsInband false \/
+  exists c p, fst x = rt_tag d c /\ r_trelay s = Some c /\ nth_error (r_pairs s) c = Some p /\ p_won p <> None.
 Proof. exact (rt_parked_from_adopted ch1 sh4 ch2 sh3). Qed.
 
-(* the relay's own sends (flushHandshakeBuffer, sendStringToClient / ToServer) go into a bridge only while
-   tunnelRelay holds a pair — an authenticated one — and tunnelConnected is set; otherwise in-band *)
-Theorem C17_relay_inject_only_adopted : forall s d bs s', rt_reach ch1 sh4 ch2 sh3 s ->
-  rt_step ch1 sh4 ch2 sh3 s (RLInject d bs) = Some s' ->
-  exists c p, r_trelay s = Some c /\ r_tconnected s = true /\ nth_error (r_pairs s) c = Some p /\
-    p_first p = Some ch1 /\ p_sfirst p = Some sh3.
-Proof. exact (rt_inject_only_adopted ch1 sh4 ch2 sh3). Qed.
+(* the relay's own writes (sendStringToClient / ToServer, every round of flushHandshakeBuffer) go into a bridge only
+   while tunnelRelay holds a pair — an authenticated one — and tunnelConnected is set; otherwise in-band *)
+Theorem C17_relay_route_only_adopted : forall s d y pc lk s', rt_reach ch1 sh4 ch2 sh3 s ->
+  rt_route s d y pc lk = Some s' ->
+  (exists c p, r_trelay s = Some c /\ r_tconnected s = true /\ nth_error (r_pairs s) c = Some p /\
+     p_first p = Some ch1 /\ p_sfirst p = Some sh3) \/
+  s' = rt_with_x s (rt_add_out d (y, r_tconnected s) (rt_set_pc_lock pc lk (r_x s))).
+Proof. exact (rt_route_only_adopted ch1 sh4 ch2 sh3). Qed.
 
 (* the pair that lost the swap (both sides authenticated, both answered): its two channels are closed and
    were never used, no pump was started, and each writer goroutine has closed its connection or does so
@@ -341,7 +372,10 @@ Print Assumptions C17_relay_unauth_server_next.
 Print Assumptions C17_relay_bridge_bytes.
 Print Assumptions C17_relay_pumps_only_adopted.
 Print Assumptions C17_relay_parked_from_adopted.
-Print Assumptions C17_relay_inject_only_adopted.
+Print Assumptions C17_relay_route_only_adopted.
+Print Assumptions C17_relay_inband_agreed_never_in_tunnel.
+Print Assumptions C17_relay_inband_agreed_passes.
+Print Assumptions C17_relay_tunnel_never_inband_once_agreed.
 Print Assumptions C17_relay_loser_closed.
 Print Assumptions C17_relay_obs_pump_spins_for_ever.
 
@@ -375,6 +409,14 @@ Theorem C17_relay_skeleton :
   rt_wrap_input_skel = expected_rt_wrap_input /\
   rt_wrap_output_skel = expected_rt_wrap_output /\
   rt_reset_to_standby_skel = expected_rt_reset_to_standby /\
+  rt_add_handshake_buffer_skel = expected_rt_add_handshake_buffer /\
+  rt_flush_handshake_buffer_skel = expected_rt_flush_handshake_buffer /\
+  rt_send_string_to_client_skel = expected_rt_send_string_to_client /\
+  rt_send_string_to_server_skel = expected_rt_send_string_to_server /\
+  rt_send_error_skel = expected_rt_send_error /\
+  rt_handshake_skel = expected_rt_handshake /\
+  rt_relay_wrap_input_skel = expected_rt_relay_wrap_input /\
+  rt_relay_wrap_output_skel = expected_rt_relay_wrap_output /\
   rt_sites_bufchan_send = expected_rt_sites_bufchan_send /\
   rt_sites_atomic_writes = expected_rt_sites_atomic_writes /\
   rt_sites_plain_writes = expected_rt_sites_plain_writes /\
@@ -385,15 +427,16 @@ Print Assumptions C17_relay_skeleton.
 (* ---- non-vacuity, the refuted stronger statement, the stated limits ---- *)
 
 (* an intruder with the right prefix and a wrong id (0), the genuine client (1), a second authenticated
-   client (2): 0 is closed unanswered and no server connection was made for it; 1 is adopted, "#A" crosses
-   to its server connection, "#B" back, the relay's own "#C" follows; 2 was answered, lost the swap, and
-   BOTH its connections have been closed with nothing but the hellos on them *)
+   client (2): 0 is closed unanswered and no server connection was made for it; 1 is adopted; 2 was answered, lost
+   the swap, and BOTH its connections have been closed with nothing but the hellos on them; the relay's handshake
+   fails on a junk line typed in-band (FAIL both ways in-band, reset); after that "#A" crosses the old bridge to
+   its server connection and "#B" back *)
 Example C17_relay_nonvacuous :
   exists ls s p0 p1 p2 e1 e2, rt_run exr_ch1 exr_sh4 exr_ch2 exr_sh3 rt_init ls = Some s /\
-    r_pairs s = [p0; p1; p2] /\ r_trelay s = Some 1%nat /\
+    r_pairs s = [p0; p1; p2] /\ r_trelay s = None /\ p_won p1 = Some 0%nat /\
     rt_observe_cli p0 = RtObsClosedSilent /\ p_srv p0 = None /\
     rt_observe_cli p1 = RtObsGot (exr_sh4 ++ [35; 66]) false /\ p_srv p1 = Some e1 /\
-    rt_observe_end e1 = RtObsGot (exr_ch2 ++ [35; 65; 35; 67]) false /\
+    rt_observe_end e1 = RtObsGot (exr_ch2 ++ [35; 65]) false /\
     rt_observe_cli p2 = RtObsGot exr_sh4 true /\ p_srv p2 = Some e2 /\ rt_observe_end e2 = RtObsGot exr_ch2 true /\
     p_pc p2 = RtDone RoLost.
 Proof.
@@ -402,9 +445,9 @@ Proof.
            RLAccept 0; RLCheck; RLAccept 1; RLCheck; RLAccept 2; RLCheck;
            RLPeerC 0; RLPeerC 1; RLPeerC 2; exr_H 0; exr_H 0; exr_H 0]
           ++ exr_greet 1 [PWrite exr_sh3; PWrite [35; 66]] ++ exr_greet 2 [PWrite exr_sh3]
-          ++ [exr_H 1; exr_H 1; exr_H 1; exr_H 1; exr_H 1; exr_H 2; exr_H 2; exr_H 2; RLWriter 2 RdIn; RLWriter 2 RdOut;
-              RLPeerC 1; RLPump 1 RdIn 2 false; RLWriter 1 RdIn; RLPeerS 1; RLPump 1 RdOut 2 false; RLWriter 1 RdOut;
-              RLActFlag true; RLInject RdIn [35; 67]; RLWriter 1 RdIn; RLAcceptErr]).
+          ++ [exr_H 1; exr_H 1; exr_H 1; exr_H 1; exr_H 1; exr_H 2; exr_H 2; exr_H 2; RLWriter 2 RdIn; RLWriter 2 RdOut]
+          ++ exr_hs_fail
+          ++ [RLPeerC 1; RLPump 1 RdIn 2; RLWriter 1 RdIn; RLPeerS 1; RLPump 1 RdOut 2; RLWriter 1 RdOut; RLAcceptErr]).
   vm_compute. do 6 eexists. repeat split.
 Qed.
 
@@ -430,15 +473,15 @@ Proof. exact rt_at_most_one_ever_false. Qed.
 Print Assumptions C17_relay_at_most_one_ever_full_is_false.
 
 (* limit (a window of a few instructions, not observed): a reset between a handler's successful swap and its
-   `tr.relay.Store(r)` leaves a bridge that is no longer in tunnelRelay with its back-pointer set; its pump then
-   hands what its (authenticated) client sends to the relay's handshake buffer although no pair is adopted *)
+   `tr.relay.Store(r)` leaves a bridge that is no longer in tunnelRelay with its back-pointer set (its pumps would
+   hand what they read to the handshake buffers of the NEXT trigger's handshake, and wait for ever at io.EOF) *)
 Example C17_relay_stale_backpointer_reachable :
-  exists ls s, rt_run exr_ch1 exr_sh4 exr_ch2 exr_sh3 rt_init ls = Some s /\
-    r_trelay s = None /\ r_parked s = [(RsCli 0%nat, [35; 65])].
+  exists ls s p0 b0, rt_run exr_ch1 exr_sh4 exr_ch2 exr_sh3 rt_init ls = Some s /\
+    r_trelay s = None /\ r_pairs s = [p0] /\ p_br p0 = Some b0 /\ b_relay b0 = true.
 Proof.
-  exists ([RLConnect [PWrite exr_ch1; PWrite [35; 65]]; RLAccept 0; RLCheck; RLPeerC 0] ++ exr_greet 0 [PWrite exr_sh3]
-          ++ [exr_H 0; RLReset; exr_H 0; exr_H 0; exr_H 0; exr_H 0; RLPeerC 0; RLPump 0 RdIn 2 true]).
-  vm_compute. eexists. repeat split.
+  exists ([RLConnect [PWrite exr_ch1]; RLAccept 0; RLCheck; RLPeerC 0] ++ exr_greet 0 [PWrite exr_sh3]
+          ++ [exr_H 0] ++ exr_hs_fail ++ [exr_H 0]).
+  vm_compute. do 3 eexists. repeat split.
 Qed.
 
 (* the busy loop is reachable by the ordinary end of a session: the client closes, wrapInput sees io.EOF and
@@ -448,8 +491,49 @@ Example C17_relay_obs_spin_reachable :
   exists ls s, rt_run exr_ch1 exr_sh4 exr_ch2 exr_sh3 rt_init ls = Some s /\ rt_spinning s 0%nat RdOut.
 Proof.
   exists ([RLConnect [PWrite exr_ch1; PClose]; RLAccept 0; RLCheck; RLPeerC 0] ++ exr_greet 0 [PWrite exr_sh3]
-          ++ [exr_H 0; exr_H 0; exr_H 0; exr_H 0; exr_H 0; RLPeerC 0; RLPumpEof 0 RdIn; RLReset; RLPumpExit 0 RdIn; RLWriter 0 RdIn]).
+          ++ [exr_H 0; exr_H 0; exr_H 0; exr_H 0; exr_H 0; RLPeerC 0; RLPumpEof 0 RdIn] ++ exr_hs_fail
+          ++ [RLPumpExit 0 RdIn; RLWriter 0 RdIn]).
   vm_compute. eexists. split; [reflexivity|]. unfold rt_spinning. do 3 eexists. repeat split.
+Qed.
+
+(* in-band bytes at every point of the relay's handshake, the tunnel adopted and agreed (ACT tunnel = true): "KA",
+   typed before the ACT, is parked and eaten as junk in front of the ACT line; "KB" / "NB" (between ACT and CFG) and
+   "KC" / "NC" (after the CFG) go on in-band at once; the tunnel connections carry the hellos and the relay's two
+   lines, nothing else *)
+Example C17_relay_inband_phases :
+  exists ls s p0 e0, rt_run exr_ch1 exr_sh4 exr_ch2 exr_sh3 rt_init ls = Some s /\
+    r_pairs s = [p0] /\ p_srv p0 = Some e0 /\ x_status (r_x s) = StTransferring /\
+    e_tx e0 = exr_ch2 ++ [35; 97; 10] /\ e_tx (p_cli p0) = exr_sh4 ++ [35; 99; 10] /\
+    x_outin (r_x s) = [(RsInband true, [75; 66], true); (RsInband true, [75; 67], true)] /\
+    x_outout (r_x s) = [(RsInband true, [78; 66], true); (RsInband true, [78; 67], true)] /\
+    x_bufin (r_x s) = [] /\ x_bufout (r_x s) = [].
+Proof.
+  exists ([RLInband RdIn [75; 65];
+           RLConnect [PWrite exr_ch1; PWrite [35; 65; 10]]; RLAccept 0; RLCheck; RLPeerC 0]
+          ++ exr_greet 0 [PWrite exr_sh3; PWrite [35; 67; 10]] ++ [exr_H 0; exr_H 0; exr_H 0; exr_H 0; exr_H 0]
+          ++ [RLPeerC 0; RLPump 0 RdIn 3; RLHsRead 5 true true true; RLHs []; RLHs [35; 97; 10];
+              RLInband RdIn [75; 66]; RLInband RdOut [78; 66];
+              RLPeerS 0; RLPump 0 RdOut 3; RLHsRead 3 true false false; RLHs [35; 99; 10]; RLHs []; RLHs []; RLHs [];
+              RLInband RdIn [75; 67]; RLInband RdOut [78; 67]; RLWriter 0 RdIn; RLWriter 0 RdOut]).
+  vm_compute. do 3 eexists. repeat split.
+Qed.
+
+(* limit, and the reason the theorem says "while tunnelConnected was set": bytes that reach the relay in-band AFTER
+   the client's ACT line has been parked but BEFORE the handshake goroutine has stored tunnelConnected (a window of a
+   few instructions on the unchanged code) are parked behind the ACT and flushed INTO the tunnel when the handshake
+   ends: "KX" follows the relay's ACT on the server's tunnel connection *)
+Example C17_relay_inband_before_agreement_may_cross :
+  exists ls s p0 e0 b0, rt_run exr_ch1 exr_sh4 exr_ch2 exr_sh3 rt_init ls = Some s /\
+    r_pairs s = [p0] /\ p_srv p0 = Some e0 /\ p_br p0 = Some b0 /\
+    e_tx e0 = exr_ch2 ++ [35; 97; 10] ++ [75; 88] /\
+    h_log (b_in b0) = [(RsRelay, [35; 97; 10]); (RsInband false, [75; 88])] /\ x_outin (r_x s) = [].
+Proof.
+  exists ([RLConnect [PWrite exr_ch1; PWrite [35; 65; 10]]; RLAccept 0; RLCheck; RLPeerC 0]
+          ++ exr_greet 0 [PWrite exr_sh3; PWrite [35; 67; 10]] ++ [exr_H 0; exr_H 0; exr_H 0; exr_H 0; exr_H 0]
+          ++ [RLPeerC 0; RLPump 0 RdIn 3; RLInband RdIn [75; 88]; RLHsRead 3 true true true; RLHs []; RLHs [35; 97; 10];
+              RLPeerS 0; RLPump 0 RdOut 3; RLHsRead 3 true false false; RLHs [35; 99; 10]; RLHs []; RLHs []; RLHs []; RLHs [];
+              RLWriter 0 RdIn; RLWriter 0 RdIn; RLWriter 0 RdOut]).
+  vm_compute. do 4 eexists. repeat split.
 Qed.
 
 (* the rewrite on a relayed trigger line, and the hello the client then computes *)
